@@ -22,6 +22,7 @@ RULE = ("one run = a Valve device in a real slow SyncGroup on the simulated bus 
         "of the statement; distinct = distinct event-log digests; non-trivial = the valve "
         "was commanded to move at least once")
 RULE += '; since the 4th session movingTime is also 0 or infinity'
+RULE += '; also the switch terminal silent for 2-31 cycles (20 %), and the rule that every handled response updates the valve'
 COMPONENTS = {
     "real": ["ebpfcat.devices.Valve.update/reset", "ebpfcat.ebpfcat.SyncGroup (cycle, "
              "update_devices)", "PacketVar bit access (Python path)"],
